@@ -199,6 +199,23 @@ func setCL(r *rng, np int, emit func(op string, exp string)) {
 			emit(fmt.Sprintf("K NextQuoteOut %s %s %s", pa, pl, rem), guard(func() string {
 				return rawOf(lptypes.GetNextSqrtPriceFromAmountQuoteOutRoundingDown(dec(pa), dec(pl), dec(rem)))
 			}))
+			tk := int64(r.next())
+			if r.n(3) == 0 {
+				tk = int64(r.n(2001) - 1000)
+			}
+			emit(fmt.Sprintf("K TickIndexToBytes %d", tk), guard(func() string {
+				bz := lptypes.TickIndexToBytes(tk)
+				parts := []string{}
+				for _, b := range bz {
+					parts = append(parts, fmt.Sprint(int(b)))
+				}
+				return strings.Join(parts, " ")
+			}))
+			tc, tl := int64(r.n(41)-20), int64(r.n(41)-20)
+			th := tl + int64(r.n(10))
+			emit(fmt.Sprintf("K IsCurrentTickInRange %d %d %d", tc, tl, th), guard(func() string {
+				return b2s(lptypes.Pool{CurrentTick: tc}.IsCurrentTickInRange(tl, th))
+			}))
 			amtQ := r.bigDigits(30)
 			pc := r.decRaw(30, false)
 			emit(fmt.Sprintf("K GetLiquidityFromAmounts %s %s %s %s %s", pc, pa, pb, amt, amtQ), guard(func() string {
